@@ -134,10 +134,12 @@ def run(rep, tier):
             lines.append('import { E%d } from "./E%d.mjs";' % (n, n))
         for n, c in enumerate(cases):
             k = len(c["lits"])
+            # lookup: by number (what arrives from Rust) AND by enumerator name (the public constructor / fromValue take `Enum | string`)
             lines.append('console.log(JSON.stringify({f: "E%d", ffi: [%s], names: [%s], lookup: [%s], rt: [%s], opt: [%s]}));' % (
                 n, ", ".join("E%d.V%d.ffiValue" % (n, i) for i in range(k)),
                 ", ".join("E%d.V%d.value" % (n, i) for i in range(k)),
-                ", ".join("(new E%d(rt.internalConstructor, E%d.V%d.ffiValue)) === E%d.V%d" % (n, n, i, n, i) for i in range(k)),
+                ", ".join("((new E%d(rt.internalConstructor, E%d.V%d.ffiValue)) === E%d.V%d) && (() => { try { return new E%d(\"V%d\") === E%d.V%d && E%d.fromValue(\"V%d\") === E%d.V%d && E%d.fromValue(E%d.V%d) === E%d.V%d; } catch (e) { return false; } })()"
+                          % (n, n, i, n, i, n, i, n, i, n, i, n, i, n, n, i, n, i) for i in range(k)),
                 ", ".join("E%d.V%d.rt() === E%d.V%d" % (n, i, n, i) for i in range(k)),
                 ", ".join("E%d.V%d.opt() === E%d.V%d" % (n, i, n, i) for i in range(k))))
         sp = os.path.join(outs["js"], "enums_driver.mjs")
